@@ -17,6 +17,7 @@
  * along with this program.  If not, see <https://www.gnu.org/licenses/>.
  */
 
+use super::canon_utils::check_peer_id;
 use super::canon_utils::handle_seen_canon;
 use super::canon_utils::handle_unseen_canon;
 use super::canon_utils::CanonEpilogClosure;
@@ -47,6 +48,7 @@ impl<'i> super::ExecutableInstruction<'i> for ast::CanonStreamMapScalar<'i> {
     fn execute(&self, exec_ctx: &mut ExecutionCtx<'i>, trace_ctx: &mut TraceHandler) -> ExecutionResult<()> {
         log_instruction!(canon, exec_ctx, trace_ctx);
         let epilog = &epilog_closure(self.scalar.name);
+        check_peer_id(&self.peer_id, exec_ctx)?;
         let canon_result = trace_to_exec_err!(trace_ctx.meet_canon_start(), self)?;
 
         let create_canon_producer = create_canon_stream_producer(self.stream_map.name, self.stream_map.position);
